@@ -373,6 +373,21 @@ def _step_bounds(e, path_stmts, stmt, target):
         if call_name(e) in ("find", "index"):
             return (-1, None)
         return (lo, None)
+    if isinstance(e, ast.Call):
+        # the value of any other call is an integer of unknown sign: a helper that measures a run of characters
+        # (`num_of_spaces(s, start_idx=i)`) answers 0 when the character under the cursor is not of its kind
+        return (None, None)
+    if isinstance(e, ast.IfExp):
+        a, b = _step_bounds(e.body, path_stmts, stmt, target), _step_bounds(e.orelse, path_stmts, stmt, target)
+        if a == "credit" or b == "credit":
+            return "credit"
+        return (
+            None if a[0] is None or b[0] is None else min(a[0], b[0]),
+            None if a[1] is None or b[1] is None else max(a[1], b[1]),
+        )
+    if isinstance(e, ast.Name):
+        # a plain variable as (part of) a step: its sign is whatever was computed into it
+        return (None, None)
     return "credit"
 
 
@@ -547,6 +562,31 @@ def really_changed(path_stmts, local_names=None):
                 changed.add(nm)
                 progress = True
     return changed
+
+
+def _immutable_locals(f, w):
+    """
+    local names that hold immutable values, so that handing them to an unknown callee (or calling a method on them)
+    cannot change the loop's state: numeric counters of the loop (`i += 1`, `i += h(...) - 1`) and parameters the
+    function's own docstring types as str / int / bool
+    """
+    from ..inputmut import immutable_params
+
+    out = set()
+    g = f
+    while g is not None:
+        out |= set(immutable_params(g.node))
+        g = g.outer
+    for n in ast.walk(w):
+        if (
+            isinstance(n, ast.AugAssign)
+            and isinstance(n.target, ast.Name)
+            and isinstance(n.op, (ast.Add, ast.Sub))
+            and any(isinstance(x, ast.Constant) and isinstance(x.value, int) and not isinstance(x.value, bool) for x in ast.walk(n.value))
+            and not any(isinstance(x, (ast.List, ast.Tuple, ast.ListComp, ast.JoinedStr)) or (isinstance(x, ast.Constant) and isinstance(x.value, str)) for x in ast.walk(n.value))
+        ):
+            out.add(n.target.id)
+    return out
 
 
 def walk_body(w):
@@ -1042,7 +1082,7 @@ def run(ctx):
             if not isinstance(w, ast.While):
                 continue
             n_loops += 1
-            info = analyse_while(w, f.locals)
+            info = analyse_while(w, set(f.locals) - _immutable_locals(f, w))
             head = "while " + short(w.test, 80)
             stuck = info["stuck_paths"]
             if not info["tests_pure"]:
